@@ -3,7 +3,11 @@
 # usage: coqbuild.sh [make-target...]   (default: all)
 set -e
 cd /verif/coq
+mkdir -p Gen
 { cat _CoqProject.head; find Base Gen Model Proofs Props -name '*.v' 2>/dev/null | sort; } > _CoqProject.new
 if ! cmp -s _CoqProject.new _CoqProject 2>/dev/null; then mv _CoqProject.new _CoqProject; coq_makefile -f _CoqProject -o Makefile >/dev/null; else rm _CoqProject.new; fi
 [ -f Makefile ] || coq_makefile -f _CoqProject -o Makefile >/dev/null
+timeout ${COQ_TIMEOUT:-3000} make -j${COQ_JOBS:-16} "$@" && exit 0
+# one retry: a freshly generated directory/file can be missed by the first dependency scan
+rm -f .Makefile.d
 exec timeout ${COQ_TIMEOUT:-3000} make -j${COQ_JOBS:-16} "$@"
